@@ -37,13 +37,56 @@ package kvindex
 //@   ensures shape: soff(result) == 0 && len(result) >= 0
 //@   ensures store: same(kvdom(), old(kvdom())) && same(kvvals(), old(kvvals()))
 
-// AddDocTx writes only keys of the index families; the graph key families are left
-// alone. TRUSTED here (proved under C09 together with the index invariant).
+// mapDig only reads the document.
+//@ func mapDig
+//@   property C09
+//@   option prelude=keys,idxkeys
+//@   pure
+//@   nopanic
+//@   requires path: len(path) >= 1
+//@   function dig: result == mapdig(i, path)
+
+// AddDocTx: for every registered field the document has a string or number value at,
+// the entry key (field, term, docID) is written and the term's cached count is
+// invalidated (set to 0 = recount); the document key records the entry list. Only keys
+// of the index families are written; no top-level write is issued (the caller's
+// transaction decides atomicity).
 //@ func (*KVIndex).AddDocTx
-//@   trusted
-//@   modifies KV.
+//@   property C09 C03
+//@   option prelude=keys,kv,idxkeys,ieee,json
+//@   option load=kvi
+//@   option globals=kvindex
+//@   modifies KV. SH. alloc H.kvindex.Doc.
+//@   requires nonnil: idx != nil && idx.Fields != nil && tx != nil
+//@   requires paths: forall f:Str :: has(idx.Fields, f) ==> len(idx.Fields[f]) >= 1
+//@   loop 1 invariant nw: kvwrites() == old(kvwrites())
+//@   loop 1 invariant frame: forall k:Str :: !idxkey(k) ==> ((kvhas(k) <==> old(kvhas(k))) && kvval(k) == old(kvval(k)))
+//@   loop 1 invariant grows: forall k:Str :: old(kvhas(k)) ==> kvhas(k)
+//@   loop 1 invariant indexed: forall f:Str :: visited(f) && isAStr(mapdig(doc, idx.Fields[f])) ==>
+//@       kvhas(entryKeyOf(f, 1, astr(mapdig(doc, idx.Fields[f])), docID)) && kvhas(termKeyOf(f, 1, astr(mapdig(doc, idx.Fields[f]))))
+//@   loop 1 invariant indexedn: forall f:Str :: visited(f) && isANum(mapdig(doc, idx.Fields[f])) ==>
+//@       kvhas(entryKeyOf(f, 2, be64(f64bits(anum(mapdig(doc, idx.Fields[f])))), docID))
 //@   ensures nw: kvwrites() == old(kvwrites())
 //@   ensures frame: forall k:Str :: !idxkey(k) ==> ((kvhas(k) <==> old(kvhas(k))) && kvval(k) == old(kvval(k)))
+//@   ensures grows: forall k:Str :: old(kvhas(k)) ==> kvhas(k)
+//@   ensures indexed: result == nil ==> (forall f:Str :: has(idx.Fields, f) && isAStr(mapdig(doc, idx.Fields[f])) ==>
+//@       kvhas(entryKeyOf(f, 1, astr(mapdig(doc, idx.Fields[f])), docID)) && kvhas(termKeyOf(f, 1, astr(mapdig(doc, idx.Fields[f])))))
+//@   ensures indexedn: result == nil ==> (forall f:Str :: has(idx.Fields, f) && isANum(mapdig(doc, idx.Fields[f])) ==>
+//@       kvhas(entryKeyOf(f, 2, be64(f64bits(anum(mapdig(doc, idx.Fields[f])))), docID)))
+//@   ensures dockey: result == nil ==> kvhas(docKeyOf(docID))
+// replacement (C09: "document insertion, replacement and removal"): an entry this
+// document had under a term it no longer has must not survive. KNOWN FINDING: AddDocTx
+// only adds (see 'grows' above), so a re-added document keeps its old entries.
+//@   ensures replaces: result == nil ==> (forall f:Str, t:Str :: old(kvhas(entryKeyOf(f, 1, t, docID))) &&
+//@       !(has(idx.Fields, f) && isAStr(mapdig(doc, idx.Fields[f])) && astr(mapdig(doc, idx.Fields[f])) == t) ==> !kvhas(entryKeyOf(f, 1, t, docID)))
+//@   loop 1 invariant shape: soff(sdoc.Entries) == 0 && len(sdoc.Entries) >= 0 && sref(sdoc.Entries) < alloc && sref(sdoc.Entries) >= 0
+//@   loop 1 invariant recorded: (forall f:Str :: visited(f) && isAStr(mapdig(doc, idx.Fields[f])) ==>
+//@       (exists j :: 0 <= j && j < len(sdoc.Entries) && sdoc.Entries[j] == entryKeyOf(f, 1, astr(mapdig(doc, idx.Fields[f])), docID)))
+//@   loop 1 invariant stored: forall j :: 0 <= j && j < len(sdoc.Entries) ==> kvhas(sdoc.Entries[j])
+//@   ensures recorded: result == nil ==> (forall f:Str :: has(idx.Fields, f) && isAStr(mapdig(doc, idx.Fields[f])) ==>
+//@       (exists j :: 0 <= j && j < sllen(docentries(kvval(docKeyOf(docID)))) &&
+//@           slnth(docentries(kvval(docKeyOf(docID))), j) == entryKeyOf(f, 1, astr(mapdig(doc, idx.Fields[f])), docID)))
+//@   ensures stored: result == nil ==> (forall j :: 0 <= j && j < sllen(docentries(kvval(docKeyOf(docID)))) ==> kvhas(slnth(docentries(kvval(docKeyOf(docID))), j)))
 
 // AddField registers the field and persists its key; only index keys are written.
 //@ func (*KVIndex).AddField
@@ -201,3 +244,76 @@ package kvindex
 //@   ensures entries: hasprefix(EntryKey(f2, TermString, t, d), EntryPrefix(f)) <==> f == f2
 //@   ensures termtype: hasprefix(TermKey(f2, TermString, t), TermTypePrefix(f, TermString)) <==> f == f2
 //@   ensures termtypes: !hasprefix(TermKey(f2, TermNumber, t), TermTypePrefix(f, TermString))
+
+// ---- C09: lazy term counts ---------------------------------------------------------
+// termGetCount returns the cached count when it is non-zero and otherwise recounts
+// the entries stored under the term's scan prefix (and caches the result). It changes
+// nothing but the term key's value.
+//@ func (*KVIndex).termGetCount
+//@   property C09
+//@   option prelude=keys,kv,idxkeys,idxcount,ieee
+//@   option load=kvi
+//@   option globals=kvindex
+//@   modifies KV.
+//@   requires nonnil: tx != nil
+//@   let tk = TermKey(field, ttype, term)
+//@   let pre = EntryValuePrefix(field, ttype, term)
+//@   let cached = unuvar(kvval(TermKey(field, ttype, term)))
+//@   loop 101 invariant store: same(kvdom(), old(kvdom())) && same(kvvals(), old(kvvals()))
+//@   loop 101 invariant iter: itvalid() ==> kvhas(itpos()) && ble(entryPrefix, itpos())
+//@   loop 101 invariant count: itvalid() ==> count == pbelow(kvdom(), entryPrefix, itpos())
+//@   loop 101 invariant done: !itvalid() ==> count == pcount(kvdom(), entryPrefix)
+//@   ensures missing: !old(kvhas(tk)) ==> result.1 != nil && same(kvdom(), old(kvdom())) && same(kvvals(), old(kvvals()))
+//@   ensures cached: result.1 == nil && cached != 0 ==> result.0 == cached && same(kvdom(), old(kvdom())) && same(kvvals(), old(kvvals()))
+//@   ensures recount: result.1 == nil && cached == 0 ==> result.0 == pcount(old(kvdom()), pre)
+//@   ensures frame: (forall k:Str :: kvhas(k) <==> old(kvhas(k))) && (forall k:Str :: k != tk ==> kvval(k) == old(kvval(k)))
+//@   ensures nw: kvwrites() == old(kvwrites())
+
+// What the protobuf round trip does to a kvindex.Doc (abstract: docentries(bytes) is the
+// entry list a serialised Doc carries). ASSUMED of google.golang.org/protobuf.
+//@ extern google.golang.org/protobuf/proto.Marshal@kvindex
+//@   params m
+//@   pure
+//@   ensures def: result.1 == nil ==> result.0 == pmarshal(m)
+//@   ensures doc: result.1 == nil && dyn(m, "*Doc") ==> sllen(docentries(result.0)) == len(ptr(m, "*Doc").Entries) &&
+//@       (forall j :: 0 <= j && j < len(ptr(m, "*Doc").Entries) ==> slnth(docentries(result.0), j) == ptr(m, "*Doc").Entries[j])
+
+//@ extern google.golang.org/protobuf/proto.Unmarshal@kvindex
+//@   params b m
+//@   modifies H.kvindex.Doc. SH.Str alloc
+//@   ensures doc: result == nil && dyn(m, "*Doc") ==> len(ptr(m, "*Doc").Entries) == sllen(docentries(b)) && soff(ptr(m, "*Doc").Entries) == 0 &&
+//@       (forall j :: 0 <= j && j < sllen(docentries(b)) ==> ptr(m, "*Doc").Entries[j] == slnth(docentries(b), j))
+
+// ---- C09: document removal via the stored entry list ----------------------------------
+// RemoveDoc deletes, in one transaction, the document key and exactly the entry keys
+// the document key records (what AddDocTx wrote: AddDocTx#ensures:recorded/stored), and
+// touches nothing else but term keys. Each term is counted while the entry being removed
+// is still stored, so that a recount and a cached count mean the same thing when one is
+// subtracted (callsite 'counted').
+// Preconditions = the index's representation invariant for this document: its recorded
+// entries are stored, pairwise different, and are entry-family keys.
+//@ func (*KVIndex).RemoveDoc
+//@   property C09
+//@   option prelude=keys,kv,idxkeys,idxcount,ieee
+//@   option load=kvi
+//@   option globals=kvindex
+//@   modifies KV. SH. alloc H.kvindex.Doc.
+//@   requires nonnil: idx != nil && idx.KV != nil
+//@   let dk = DocKey(docID)
+//@   let L = docentries(kvval(DocKey(docID)))
+//@   requires recorded: kvhas(dk) ==> (forall j :: 0 <= j && j < sllen(L) ==> kvhas(slnth(L, j)))
+//@   requires distinct: forall i, j :: 0 <= i && i < j && j < sllen(L) ==> slnth(L, i) != slnth(L, j)
+//@   requires entries: forall j :: 0 <= j && j < sllen(L) ==> firstcomp(slnth(L, j)) == lit_i
+//@   callsite termGetCount requires counted: kvhas(entryKey)
+//@   loop 101 invariant list: len(doc.Entries) == sllen(L) && soff(doc.Entries) == 0 && (forall j :: 0 <= j && j < sllen(L) ==> doc.Entries[j] == slnth(L, j))
+//@   loop 101 invariant deleted: forall j :: 0 <= j && j <= rangeindex ==> !kvhas(slnth(L, j))
+//@   loop 101 invariant pending: forall j :: rangeindex < j && j < sllen(L) ==> kvhas(slnth(L, j))
+//@   loop 101 invariant frame: forall k:Str :: firstcomp(k) != lit_t && !(exists j :: 0 <= j && j < sllen(L) && k == slnth(L, j)) ==>
+//@       ((kvhas(k) <==> old(kvhas(k))) && kvval(k) == old(kvval(k)))
+//@   loop 101 invariant bound: rangeindex < sllen(L)
+//@   loop 101 invariant nw: kvwrites() == old(kvwrites())
+//@   ensures absent: !old(kvhas(dk)) ==> result == nil && same(kvdom(), old(kvdom())) && same(kvvals(), old(kvvals()))
+//@   ensures removed: result == nil && old(kvhas(dk)) ==> !kvhas(dk) && (forall j :: 0 <= j && j < sllen(L) ==> !kvhas(slnth(L, j)))
+//@   ensures frame: forall k:Str :: firstcomp(k) != lit_t && k != dk && !(exists j :: 0 <= j && j < sllen(L) && k == slnth(L, j)) ==>
+//@       ((kvhas(k) <==> old(kvhas(k))) && kvval(k) == old(kvval(k)))
+//@   ensures atomic: kvwrites() <= old(kvwrites()) + 1
